@@ -33,6 +33,7 @@ struct E1Config {
     int silentSuffix = 0;       // >= 2: from every stored state, all op sequences of this length without observers in between
     size_t silentSuffixStates = 1000000;
     unsigned long long stopAfterViolations = 2000;
+    bool ctorStarts = false;             // also check graphs built by the edge-list constructor (small lists)
     std::set<long> allowedValues;        // MULTI: if non-empty, transitions leading to a multiplicity outside this set are cut
     std::vector<unsigned> bigSizes;      // non-empty: "scaled" mode - start from structured graphs of these sizes
     bool observeEveryTransition = false; // run the state oracle on the result of every transition, not only on new states
@@ -57,7 +58,7 @@ template <class G> class Explorer {
     std::unordered_map<std::string, int> index;
     std::unordered_map<std::string, G> freshCache;
     std::set<std::string> abstractValues;
-    unsigned long long mergeSteps = 0, hiddenVariants = 0, transitions = 0, cutTransitions = 0, clauseEvals = 0, throwingSteps = 0, noopSteps = 0;
+    unsigned long long ctorStates = 0, mergeSteps = 0, hiddenVariants = 0, transitions = 0, cutTransitions = 0, clauseEvals = 0, throwingSteps = 0, noopSteps = 0;
     // hooks for property-specific checks evaluated on every NEW state / every transition
     std::function<void(const G &, const Model &, ClauseSink &)> extraStateCheck;
     std::function<void(const G &before, const Model &mBefore, const Op &, const G &after, const Model &mAfter, ClauseSink &)> extraStepCheck;
@@ -291,6 +292,54 @@ template <class G> class Explorer {
             abstractValues.insert(m.str());
             frontier.push_back((int)recs.size() - 1);
             report(sink, n0, {});
+        }
+        // graphs built by the edge-list constructor (every list of <= 2 entries over 2 vertices and the value
+        // alphabet, both orientations, repeats included): checked with the whole state oracle, not expanded
+        if (cfg.ctorStarts) {
+            std::vector<std::tuple<unsigned, unsigned, long>> items;
+            std::vector<long> vals = cfg.addValues;
+            if (T::fam == MULTI) vals.erase(std::remove(vals.begin(), vals.end(), 0L), vals.end());
+            if (vals.empty()) vals = {0};
+            for (unsigned i = 0; i < 2; ++i)
+                for (unsigned j = 0; j < 2; ++j)
+                    for (long v : vals) items.emplace_back(i, j, v);
+            std::vector<std::vector<std::tuple<unsigned, unsigned, long>>> lists = {{}};
+            for (auto &a : items) {
+                lists.push_back({a});
+                for (auto &b : items) lists.push_back({a, b});
+            }
+            for (auto &lst : lists) {
+                Model m;
+                m.directed = T::directed;
+                unsigned mx = 0;
+                for (auto &e : lst) mx = std::max(mx, std::max(std::get<0>(e), std::get<1>(e)) + 1);
+                m.n = mx;
+                std::string enc;
+                for (auto &e : lst) {
+                    Op o;
+                    o.k = ADD; o.i = std::get<0>(e); o.j = std::get<1>(e); o.v = std::get<2>(e);
+                    applyModel(m, o, T::fam);
+                    enc += std::to_string(o.i) + ":" + std::to_string(o.j) + ":" + std::to_string(o.v) + ",";
+                }
+                if (!withinCaps(m)) continue;
+                breadcrumb(cfg.name + " edge-list constructor " + enc);
+                ClauseSink sink;
+                sink.property = prop;
+                try {
+                    G g = constructFromList<G>(lst);
+                    ++ctorStates;
+                    newStateClauses(g, m, sink);
+                    if (sink.wants("eq.fresh")) {
+                        const G &f = freshOf(m);
+                        if (!(g == f) || !(f == g)) sink.fail("eq.fresh", "graph built by the edge-list constructor differs from the one built by one-at-a-time insertion, value " + m.str());
+                    }
+                } catch (...) {
+                    sink.fail("outcome", std::string("edge-list constructor threw ") + outcomeName(classifyCurrentException()));
+                }
+                clauseEvals += sink.evaluated;
+                for (auto &f : sink.failures)
+                    rep.violation(prop + ":" + cfg.name + ":" + f.first + ":CTOR", "graph constructed from the edge list [" + enc + "] (entries i:j:value): " + f.second, "--ctor " + (enc.empty() ? std::string("-") : enc));
+            }
         }
         // scaled mode: structured graphs of larger sizes, built through the public API as ordinary histories
         for (unsigned n0 : cfg.bigSizes) {
@@ -614,6 +663,7 @@ template <class G> class Explorer {
         rep.count("traces_validated", (long long)replayed);
         rep.count("rejected_steps", (long long)throwingSteps);
         rep.count("hidden_state_variants", (long long)hiddenVariants);
+        rep.count("constructor_built_states", (long long)ctorStates);
         rep.count("noop_steps", (long long)noopSteps);
         rep.count("pairs_compared", (long long)pairs);
         rep.count("stateless_histories", (long long)histories);
@@ -648,6 +698,30 @@ template <class G> int replayHistory(const E1Config &cfg, const std::string &pro
     std::string enc = args.get("ops", "-");
     auto h = decodeOps(enc == "-" ? "" : enc);
     printf("replaying on %s (property %s), graph constructed with %u vertices\n", cfg.name.c_str(), prop.c_str(), start);
+    if (args.has("ctor")) {
+        std::vector<std::tuple<unsigned, unsigned, long>> lst;
+        std::string enc = args.get("ctor", "-");
+        Model m;
+        m.directed = Tr<G>::directed;
+        if (enc != "-")
+            for (auto &t : split(enc, ',')) {
+                auto q = split(t, ':');
+                if (q.size() != 3) continue;
+                lst.emplace_back((unsigned)atol(q[0].c_str()), (unsigned)atol(q[1].c_str()), atol(q[2].c_str()));
+                Op o;
+                o.k = ADD; o.i = std::get<0>(lst.back()); o.j = std::get<1>(lst.back()); o.v = std::get<2>(lst.back());
+                m.n = std::max(m.n, std::max(o.i, o.j) + 1);
+                applyModel(m, o, Tr<G>::fam);
+            }
+        G g = constructFromList<G>(lst);
+        ClauseSink sink;
+        sink.property = prop;
+        checkState(g, m, sink);
+        if (sink.wants("eq.fresh") && !(g == fresh<G>(m))) sink.fail("eq.fresh", "constructor-built graph != one-at-a-time graph");
+        printf("constructed from [%s]: key %s, model %s\n", enc.c_str(), keyOf(g, true).c_str(), m.str().c_str());
+        for (auto &f : sink.failures) printf("REPRODUCED clause %s: %s\n", f.first.c_str(), f.second.c_str());
+        return sink.failures.empty() ? 0 : 1;
+    }
     if (args.has("silent") || args.has("observed-prefix")) {
         // observers are called after each of the first `observed-prefix` steps only, then at the end
         size_t observed = args.has("silent") ? 0 : (size_t)args.getInt("observed-prefix", 0);
